@@ -93,7 +93,11 @@ class GetPhasefield(Contract):
                 if z3.is_true(z3.simplify(k == 0)):
                     g["first_field"] = fld
                 return fld
-            d = Sym(f"droplet[{k}]", term=k, methods={"get_phase_field": gpf})
+            # a droplet's own field is NOT a function of its radius alone (a diffuse droplet of radius 0 still contributes up to 1/2 near its centre):
+            # radius and field value are independent symbols, so no droplet may be skipped because of its size
+            d = Sym(f"droplet[{k}]", term=k, methods={"get_phase_field": gpf},
+                    attrs={"radius": z3.Function("radius_of_droplet", I, Rl)(k), "interface_width": z3.Function("width_of_droplet", I, Rl)(k),
+                           "volume": z3.Function("volume_of_droplet", I, Rl)(k)})
             return d
 
         def getitem(run2, idx):
@@ -141,3 +145,77 @@ class SumOrderLemma(Lemma):
         x, y = z3.Reals("x y")
         clip = lambda t: z3.If(t < 0, 0, z3.If(t > 1, 1, t))    # noqa: E731
         yield ("clip is a function of the sum only", [x == y], clip(x) == clip(y))
+
+
+from pyvc.bounded import Bounded   # noqa: E402
+
+
+class EmulsionSum(Bounded):
+    name = "emulsion-field-is-clipped-sum"
+    bound = ("Emulsion.get_phasefield against clip(sum of the members' own get_phase_field, 0, 1), cell by cell, and against every rotation / the reversal "
+             "of the member order: 40 (quick) / 400 (thorough) random emulsions of 0-5 droplets (spherical, diffuse incl. width 0 / unset, perturbed) "
+             "on 1-3 d Cartesian (periodic / not), polar and cylindrical grids, including droplets of radius exactly 0, overlapping droplets (sum > 1) and "
+             "droplets outside the grid")
+
+    def run(self, tier, seed):
+        import numpy as np
+        import pde
+        from droplets import Emulsion
+        from droplets.droplets import DiffuseDroplet, PerturbedDroplet2D, SphericalDroplet
+        rng = np.random.default_rng(seed + 303)
+        ev, distinct, viol = 0, set(), {}
+        for t in range(40 if tier == "quick" else 400):
+            k = t % 5
+            if k == 0:
+                grid = pde.UnitGrid([int(rng.integers(4, 30))], periodic=bool(t % 2))
+            elif k == 1:
+                grid = pde.CartesianGrid([(-2.0, 6.0), (0.0, 5.0)], [16, 10], periodic=[bool(t % 2), False])
+            elif k == 2:
+                grid = pde.UnitGrid([6, 5, 4], periodic=True)
+            elif k == 3:
+                grid = pde.PolarSymGrid(5.0, 10)
+            else:
+                grid = pde.CylindricalSymGrid(4.0, (0.0, 8.0), [8, 16], periodic_z=False)
+            dim = grid.dim
+            ds = []
+            for _ in range(int(rng.integers(0, 6))):
+                if isinstance(grid, pde.PolarSymGrid):
+                    pos = np.zeros(dim)
+                elif isinstance(grid, pde.CylindricalSymGrid):
+                    pos = np.array([0.0, 0.0, rng.uniform(-1, 9)])
+                else:
+                    cc = np.asarray(grid.cell_coords).reshape(-1, dim)
+                    pos = np.array(cc[int(rng.integers(0, len(cc)))], dtype=float) + (rng.normal(size=dim) if rng.random() < 0.5 else 0.0)
+                r = float(rng.choice([0.0, 0.0, 0.7, 2.0, 4.0]))
+                kind = int(rng.integers(0, 4))
+                if kind == 0:
+                    ds.append(SphericalDroplet(pos, r))
+                elif kind == 1:
+                    ds.append(DiffuseDroplet(pos, r, [None, 0.0, 0.8][int(rng.integers(0, 3))]))
+                elif kind == 2 and dim == 2 and not isinstance(grid, pde.PolarSymGrid):
+                    ds.append(PerturbedDroplet2D(pos, r, 0.7, rng.uniform(-0.3, 0.3, 2)))
+                else:
+                    ds.append(DiffuseDroplet(pos, r, 1.2))
+            ev += 1
+            distinct.add((t, seed))
+            inputs = dict(t=t, seed=seed, grid=repr(grid), droplets=[repr(d) for d in ds])
+            try:
+                got = Emulsion(ds).get_phasefield(grid).data
+                if ds:
+                    want = np.clip(sum(d.get_phase_field(grid).data.astype(float) for d in ds), 0, 1)
+                else:
+                    want = np.zeros(grid.shape)
+                if got.shape != want.shape or not np.allclose(got, want, rtol=0, atol=1e-12):
+                    viol.setdefault("sum", dict(signature="clipped-sum", what="the emulsion's field is not clip(sum of the members' fields, 0, 1) in some cell",
+                                                inputs=inputs, native=dict(max_dev=float(np.max(np.abs(got - want))))))
+                for perm in ([ds[::-1]] + [ds[j:] + ds[:j] for j in range(1, len(ds))]):
+                    other = Emulsion(perm).get_phasefield(grid).data
+                    if not np.allclose(got, other, rtol=0, atol=1e-12):
+                        viol.setdefault("order", dict(signature="order", what="the emulsion's field depends on the order of its members", inputs=inputs))
+            except Exception as e:   # noqa: BLE001
+                viol.setdefault("raises", dict(signature=f"raises:{type(e).__name__}", what=f"get_phasefield raises {type(e).__name__}: {e}", inputs=inputs))
+        return dict(evaluations=ev, distinct=len(distinct), violations=list(viol.values()))
+
+    def replay(self, rec):
+        r = self.run("quick" if rec["inputs"].get("t", 0) < 40 else "thorough", int(rec["inputs"].get("seed", 0)))
+        return dict(violated=[v["signature"] for v in r["violations"]], observed=[v.get("native") for v in r["violations"]][:3])
